@@ -94,7 +94,10 @@ Sites == <<
         Ch2(Let("o", Seq2(A1, B1), Right(Str(<<comma>>), Left(Call("Val", <<P(Ref("o"))>>), Str(<<comma>>)))),
             Let("o", Seq2(Right(A1, B1), Expect(Str(<<comma>>)) ), Right(Str(<<comma>>), Call("Val", <<P(Ref("o"))>>)))),
   (* 39 higher-order: a template name passed as argument and called with arguments *)
-        Seq2(Call("Invoke", <<P(Ref("Wrap")), P(A1)>>), Opt(Call("Invoke", <<Kw("x", B1), Kw("F", Ref("Twice"))>>)))
+        Seq2(Call("Invoke", <<P(Ref("Wrap")), P(A1)>>), Opt(Call("Invoke", <<Kw("x", B1), Kw("F", Ref("Twice"))>>))),
+  (* 40 a dict with unhashable (list) values as argument value *)
+        Let("t", Apply(Star(Seq2(AnyAB, Star(Str(<<comma>>)))), Py(<<"fn", "dict">>)),
+            Right(Str(<<lpar>>), Call("Val", <<P(Ref("t"))>>)))
 >>
 
 Grammar(i) == [rules |-> ("start" :> Rule(Sites[i])) @@ Templates, ign |-> <<>>, start |-> "start"]
@@ -107,7 +110,8 @@ Texts == TextSeqUpTo(<<a, b, lpar, rpar>>, IF Tier = "quick" THEN 4 ELSE 5)
                <<a, b, comma>>, <<lpar, a, a, rpar>>, <<lpar, bigA, rpar>>, <<49, a>>, <<49, b, 50, a, b>>,
                <<a, b, a, b, a>>, <<a, b, a, b, a, b>>, <<50, b, b, comma, b, b, comma, b>>, <<49, b, comma, b, b>>,
                <<a, b, a, a>>, <<a, b, a, b, a, a>>, <<b, b, b, b, a, b, b>>, <<b, b, a, a, b, b, b>>, <<b, b, b, a, b>>,
-               <<b, b, b, b, a, a, b, b, b, b>>, <<a, b, comma, a>>, <<a, b, comma, a, comma>> >>
+               <<b, b, b, b, a, a, b, b, b, b>>, <<a, b, comma, a>>, <<a, b, comma, a, comma>>,
+               <<a, comma, comma, b, lpar, a>>, <<a, comma, b, comma, a, lpar, a>>, <<lpar, a>>, <<b, lpar, a, b>> >>
 
 VARIABLES site, named, done
 vars == <<site, named, done>>
